@@ -22,9 +22,23 @@ rc, out = sh("git -C /repo worktree add -f --detach %s HEAD" % wt)
 try:
     rc, out = sh("git apply %s/patch.diff" % src, cwd=wt)
     res["patch_applies_to_repo_head"] = (rc == 0)
+    ported = None
     if rc != 0:
-        res["note"] = out[-500:]
-        print(json.dumps(res, indent=1)); sys.exit(1)
+        # /repo HEAD moved on (fix: commits) since the agent's worktree was cut: re-apply with less context, keep the ported diff
+        for cmd in ("git apply -C1 %s/patch.diff", "patch -p1 -F3 --no-backup-if-mismatch < %s/patch.diff"):
+            sh("git checkout -- .", cwd=wt)
+            rc, out = sh(cmd % src, cwd=wt)
+            if rc == 0:
+                break
+        if rc != 0 and os.path.exists(src + "/patch.ported.diff"):
+            sh("git checkout -- .", cwd=wt)
+            rc, out = sh("git apply %s/patch.ported.diff" % src, cwd=wt)
+        if rc != 0:
+            res["note"] = out[-500:]
+            print(json.dumps(res, indent=1)); sys.exit(1)
+        rc2, ported = sh("git diff -- src", cwd=wt)
+        open(src + "/patch.ported.diff", "w").write(ported)
+        res["ported_to_current_head"] = True
     os.makedirs(wt + "/tests", exist_ok=True)
     shutil.copy(src + "/demo.rs", wt + "/tests/seed_demo.rs")
     rc, out = sh("cargo nextest run --workspace --no-fail-fast --test-threads 8 --offline -E 'not binary(seed_demo)' 2>&1 | tail -5", cwd=wt)
@@ -45,7 +59,8 @@ confirmed = res.get("suite_passes_with_change") and res.get("demo_fails_with_cha
 res["confirmed"] = bool(confirmed)
 # our checks
 checks = {}
-rc, out = sh("git -C /repo apply %s/patch.diff" % src)
+use = src + ("/patch.ported.diff" if os.path.exists(src + "/patch.ported.diff") else "/patch.diff")
+rc, out = sh("git -C /repo apply %s" % use)
 try:
     for p in [prop] + extra:
         rc, out = sh("cd /verif && VERIF_EVIDENCE_DIR=/tmp/seed_evidence VERIF_REPLAY_DIR=/tmp/seed_replays ./check %s --tier quick" % p, timeout=1200)
@@ -58,11 +73,14 @@ res["caught_by"] = [p for p, c in checks.items() if c["exit"] == 1]
 d = "/verif/seeded/%s-%s" % (prop, n)
 if confirmed:
     os.makedirs(d, exist_ok=True)
-    shutil.copy(src + "/patch.diff", d + "/patch.diff")
+    shutil.copy(use, d + "/patch.diff")
+    if use.endswith("ported.diff"):
+        shutil.copy(src + "/patch.diff", d + "/patch.original.diff")
     shutil.copy(src + "/demo.rs", d + "/demo.rs")
     meta = {"property": prop, "summary": agent_meta.get("summary"), "needs_to_manifest": agent_meta.get("needs_to_manifest"),
             "what_was_run": {"confirmation": "scratch worktree of /repo HEAD: git apply patch.diff; cargo nextest run (82 tests) -> %s; cargo test --test seed_demo -> fails; git checkout -- src; cargo test --test seed_demo -> passes" % res.get("suite_with_change"),
                              "checks": "git -C /repo apply patch.diff; ./check <P> --tier quick; git -C /repo checkout -- ."},
-            "check_results": checks, "caught_by": res["caught_by"], "written_by": "independent sub-agent given only the property text"}
+            "check_results": checks, "caught_by": res["caught_by"], "written_by": "independent sub-agent given only the property text",
+            "note": ("patch.diff is the agent's change re-applied to the current /repo HEAD (fix: commits moved the context); the agent's own diff is patch.original.diff" if use.endswith("ported.diff") else "")}
     json.dump(meta, open(d + "/meta.json", "w"), indent=1)
 print(json.dumps(res, indent=1))
